@@ -430,6 +430,8 @@ class P(Prop):
             return list(tr.addAnalyticalFeature(self.ds, "ds"))
         if kind == "I":
             return list(tr.operate(self.Operator.INTEGRATOR, "ds", "abs_curv"))
+        if kind == "E":
+            return tr.operate("abs_curv=I{ds}")
         if kind == "D":
             return list(tr.operate(self.Operator.DIFFERENTIATOR, "abs_curv", "dd"))
         if kind == "L":
@@ -490,7 +492,7 @@ class P(Prop):
         ops = []
         for op in case["hist"]:
             kind = op[0]
-            if kind in ("a", "f", "d", "I", "D", "L", "c", "cp"):
+            if kind in ("a", "f", "d", "I", "E", "D", "L", "c", "cp"):
                 ops.append("%s:%d" % (kind, op[1]))
             elif kind in ("s", "S"):
                 ops.append("s:%d" % op[1])
@@ -655,7 +657,11 @@ class P(Prop):
                 return "feature %s of the track changed: %s -> %s" % (nm, col, post.get(nm))
         r = rec["r"]
         stored = info.get("stored")
-        if stored is not None and (stored not in post or not close(post[stored], r, 0.0, 0.0)):
+        if info.get("void"):
+            if r is not None or stored not in post:
+                return "returned %s, track['%s'] reads %s" % (r, stored, post.get(stored))
+            r = post[stored]              # the operation returns nothing: what it stored is what is checked
+        elif stored is not None and (stored not in post or not close(post[stored], r, 0.0, 0.0)):
             return "returned %s but track['%s'] reads %s" % (r, stored, post.get(stored))
         chk = info["check"]
         if chk is None or n < 2:
@@ -678,12 +684,25 @@ class P(Prop):
                 return "length() = %r on a track of constant height, planimetric length is %r" % (r, total)
         return None
 
+    # ---------------------------------------------------------------- known-finding classes
+    def classify(self, case, impl_out, msg):
+        """`list-init-on-shared-obs`: `track.operate("abs_curv=I{ds}")` (expression front end: the assignment goes through
+        createAnalyticalFeature(name, LIST), which APPENDS the values instead of writing the index it registers) on a track
+        some of whose Obs objects carry a slot left by a track sharing them: abs_curv then reads the stale slot.
+        The generators do not produce this situation; the oracle is not relaxed for it."""
+        if "hist" in case and msg and msg.startswith("operation "):
+            j = W.list_init_on_foreign_slots(case)
+            if j is not None and msg.startswith("operation %d " % j):
+                return "list-init-on-shared-obs"
+        return None
+
     # ---------------------------------------------------------------- shrinking / tags
     def w_shrink(self, case):
         hist = case["hist"]
+        known = W.list_init_on_foreign_slots(case) is not None
         for i in range(len(hist) - 1, -1, -1):
             c = dict(case, hist=hist[:i] + hist[i + 1:])
-            if W.valid_case(c):
+            if W.valid_case(c) and (known or W.list_init_on_foreign_slots(c) is None):
                 yield c
         t0 = min(case["tms"])
         base = t0 - t0 % 3600000
@@ -698,4 +717,4 @@ class P(Prop):
 
     def w_nontrivial(self, case):
         p = case["pos"]
-        return len(p) >= 2 and any(p[i][:2] != p[i + 1][:2] for i in range(len(p) - 1)) and any(op[0] in "asSfdI" for op in case["hist"])
+        return len(p) >= 2 and any(p[i][:2] != p[i + 1][:2] for i in range(len(p) - 1)) and any(op[0] in "asSfdIE" for op in case["hist"])
